@@ -600,7 +600,8 @@ pub fn run_case(c: &Case, rep: &mut Report, verbose: bool) -> (String, String) {
     let real_bytes: &[u8] = if kind == 'R' { &real.delivered } else { &real.sink };
     if !real.stopped && !ideal.stopped {
         if !any_fault && !premature_eof {
-            if real_bytes != ideal_bytes { rep.violation("adapters:bytes-depend-on-short-io", &format!("every call succeeded but the bytes delivered differ from the run over a well-behaved stream ({} vs {} bytes, first difference at {})", real_bytes.len(), ideal_bytes.len(), crate::dec::first_diff(real_bytes, ideal_bytes)), case_json("")); }
+            let fast = matches!(c, Case::R { q: 0..=1, .. } | Case::C { q: 0..=1, .. });
+            if real_bytes != ideal_bytes { rep.violation(if fast { "adapters:bytes-depend-on-short-io:fast-path-q0q1-reads" } else { "adapters:bytes-depend-on-short-io" }, &format!("every call succeeded but the bytes delivered differ from the run over a well-behaved stream ({} vs {} bytes, first difference at {})", real_bytes.len(), ideal_bytes.len(), crate::dec::first_diff(real_bytes, ideal_bytes)), case_json("")); }
             let closed = match c { Case::W { calls, .. } => matches!(calls.last(), Some(WCall::Close)), Case::R { .. } => real.results.last().map(|t| t == "ok:-").unwrap_or(false) && !matches!(c, Case::R { calls, .. } if matches!(calls.last(), Some(RCall::Read(0)))), Case::C { .. } => true };
             if closed { match crate::dec::decode(real_bytes, written.len() + 65536) { crate::dec::DResult::Ok(v) if v == written => { rep.count("roundtrip.ok"); } other => { rep.violation("adapters:complete-stream-does-not-decode", &format!("every call succeeded and the stream was closed, but the delivered bytes do not decode to what was written: {:?}", match other { crate::dec::DResult::Ok(v) => format!("decoded {} bytes, expected {}", v.len(), written.len()), crate::dec::DResult::Error(v) => format!("error after {}", v.len()), crate::dec::DResult::NeedsMoreInput(v) => format!("truncated after {}", v.len()), _ => "too big".into() }), case_json("")); } } }
         } else if kind != 'R' && !real.log.iter().any(|e| e.kind == 1 && matches!(e.res, Res::E(_))) {
